@@ -456,6 +456,9 @@ class Interp(object):
             pure["isfile"] = pure["exists"]
             path = NSModel("os.path", pure)
             return path if name == "os.path" else NSModel("os", {"path": path, "sep": "/", "environ": {}})
+        if name == "ctypes":
+            from .npmodel import ctypes_model
+            return ctypes_model()
         return Opaque(name)
 
     def get_function(self, qualname):
@@ -924,6 +927,8 @@ class Interp(object):
         if isinstance(v, FuncV):
             if name == "__name__":
                 return v.name
+        if type(v).__name__ == "flagsobj" and name in ("c_contiguous", "f_contiguous", "contiguous", "writeable", "owndata", "aligned"):
+            return bool(getattr(v, name))
         raise Unsupported("getattr %s on %r" % (name, type(v).__name__))
 
     def bind(self, a, obj, cls):
